@@ -10,9 +10,9 @@ from . import wl_groups as wl
 
 PROPERTY = "C21"
 LEVEL = "exploration"
-SCENARIOS = {"nofault": 2, "wire-faults": 3, "wkc-faults": 2}
+SCENARIOS = {"nofault": 2, "wire-faults": 3, "wkc-faults": 2, "two-groups": 2}
 TIERS = {"quick": {"runs": 2400, "chunk": 10}, "thorough": {"runs": 50000000, "wall_s": 600, "chunk": 50, "recheck": 16}}
-RULE = ("one run = FastEtherCat + one real FastSyncGroup with a tape-generated layout (1-4 "
+RULE = ("one run = FastEtherCat + one (in 'two-groups': two, on disjoint terminals) real FastSyncGroup with a tape-generated layout (1-4 "
         "terminals, FMMU and direct writers/readers, 1-3 generated devices) on the simulated "
         "bus; the real dispatcher and group byte code run in the eBPF interpreter on every "
         "returning frame; the wire loses/delays frames, terminals return correct or wrong "
@@ -68,7 +68,7 @@ def make_fast_device(ins, outs, in_fmts=None, consts=None):
     return type("GenDev", (Device,), ns)
 
 
-def build_devices(tape, terms, links, label, variants=False):
+def build_devices(tape, terms, links, label, variants=False, var_factory=None):
     from ebpfcat.ebpfcat import PacketVar
     from ebpfcat.ethercat import SyncManager
     from . import wl_groups as wl
@@ -95,10 +95,11 @@ def build_devices(tape, terms, links, label, variants=False):
                       else None for ln in outs]
         dev = make_fast_device(ins, outs, in_fmts, consts)()
         dev.ins, dev.outs, dev.consts = ins, outs, consts or [None] * len(outs)
+        mk = var_factory or (lambda ln, sm: PacketVar(terms[ln["term"]], sm, ln["pos"], ln["size"]))
         for i, ln in enumerate(ins):
-            setattr(dev, f"i{i}", PacketVar(terms[ln["term"]], SyncManager.IN, ln["pos"], ln["size"]))
+            setattr(dev, f"i{i}", mk(ln, SyncManager.IN))
         for j, ln in enumerate(outs):
-            setattr(dev, f"o{j}", PacketVar(terms[ln["term"]], SyncManager.OUT, ln["pos"], ln["size"]))
+            setattr(dev, f"o{j}", mk(ln, SyncManager.OUT))
         devices.append(dev)
     return devices
 
@@ -110,81 +111,111 @@ def run(tape, scenario):
     env = Env(tape, with_kernel=True, faults=wf)
     world, bus = env.world, env.bus
     ec = FastEtherCat("sim0")
+    two = scenario == "two-groups"
     specs = wl.gen_specs(tape, "c21", max_terms=4, max_sz=10)
+    if two and len(specs) < 2:
+        specs = specs + wl.gen_specs(tape, "c21b", max_terms=2, max_sz=10)
     sims, terms = wl.build(env, ec, specs)
-    links = wl.gen_links(tape, specs, "c21", max_vars=3)
-    if not links:
-        links = [dict(term=0, sm="in" if specs[0]["in_sz"] else "out", pos=0, size="B")]
-    devices = build_devices(tape, terms, links, "c21")
-    rw = {ln["term"] for ln in links if ln["sm"] == "out"}
-    used = {ln["term"] for ln in links}
+    all_links = wl.gen_links(tape, specs, "c21", max_vars=3)
+    # terminals are split between the groups (disjoint sets)
+    owner = [tape.draw("c21/group-of-terminal", 2) if two else 0 for _ in specs]
+    if two:
+        owner[0], owner[1] = 0, 1
     violations = []
 
     def viol(rule, detail, **params):
         if not violations:
             violations.append({"rule": rule, "params": params, "detail": detail})
 
-    info = {}            # filled once the group is laid out
+    class Group:
+        pass
+    groups = []
+    for gi in range(2 if two else 1):
+        g = Group()
+        g.no = gi
+        g.links = [ln for ln in all_links if owner[ln["term"]] == gi]
+        if not g.links:
+            k = owner.index(gi)
+            g.links = [dict(term=k, sm="in" if specs[k]["in_sz"] else "out", pos=0, size="B")]
+        g.devices = build_devices(tape, terms, g.links, f"c21/g{gi}")
+        g.rw = {ln["term"] for ln in g.links if ln["sm"] == "out"}
+        g.info = {}
+        g.pre = {}
+        g.sg = None
+        groups.append(g)
     stats = dict(passes=0, program_passes=0, activated=0)
-    pre = {}
 
-    def layout(sg):
+    def layout(g):
+        sg = g.sg
         full = sg.packet.assemble(sg.packet_index, ec.ethertype)
         _, _, dg = parse_ecat(full)
         writers = []
         for d in dg:
             if d.cmd in WRITE_CMDS:
                 if d.cmd == LWR:
-                    exp = sum(1 for k in rw if specs[k]["use_fmmu"] and specs[k]["out_sz"])
+                    exp = sum(1 for k in g.rw if specs[k]["use_fmmu"] and specs[k]["out_sz"])
                 else:
                     exp = 1
                 writers.append((14 + d.hdr_pos, 14 + d.wkc_pos, d.cmd, exp,
                                 14 + d.data_pos, 14 + d.wkc_pos))
-        info.update(writers=writers, size=len(full) + 14, group=sg.packet_index)
+        g.info.update(writers=writers, size=len(full) + 14, group=sg.packet_index)
 
-    def mine(frame):
-        return (len(frame) >= 30 and frame[12:14] == b"\x88\xa4" and frame[16] == 0
-                and struct.unpack_from("<I", frame, 18)[0] == info.get("group"))
+    def group_of(frame):
+        if len(frame) < 30 or frame[12:14] != b"\x88\xa4" or frame[16] != 0:
+            return None
+        no, = struct.unpack_from("<I", frame, 18)
+        for g in groups:
+            if g.info and g.info["group"] == no:
+                return g
+        return None
 
     def tx_monitor(no, frame, transport):
-        if not info or not mine(frame):
+        g = group_of(frame)
+        if g is None:
             return
-        for cmdpos, wkcpos, cmd, exp, a, b in info["writers"]:
+        for cmdpos, wkcpos, cmd, exp, a, b in g.info["writers"]:
             if frame[cmdpos] != NOP:
                 viol("frame-left-user-space-enabled",
-                     f"frame {no} handed to the transport with command {frame[cmdpos]} in the "
-                     f"write datagram at {cmdpos}")
+                     f"group {g.no} frame {no} handed to the transport with command "
+                     f"{frame[cmdpos]} in the write datagram at {cmdpos}")
     bus.monitors.append(tx_monitor)
+    current = [None]
 
     def rx_monitor(stage, no, *rest):
-        if not info:
-            return
         if stage == "pre-xdp":
-            frame = rest[0]
-            if mine(frame):
-                pre["errors"] = sg.wkc_errors
-            else:
-                pre.pop("errors", None)
+            g = group_of(rest[0])
+            current[0] = g
+            if g is not None:
+                g.pre["errors"] = g.sg.wkc_errors
+                g.pre["others"] = [(o.no, o.sg.wkc_errors) for o in groups
+                                   if o is not g and o.info]
             return
-        if stage != "xdp" or "errors" not in pre:
+        g = current[0]
+        if stage != "xdp" or g is None or "errors" not in g.pre:
             return
+        current[0] = None
         before, after, action, inst = rest
-        errors_before = pre.pop("errors")
-        errors_after = sg.wkc_errors
+        errors_before = g.pre.pop("errors")
+        errors_after = g.sg.wkc_errors
+        for ono, oerr in g.pre.pop("others"):
+            if groups[ono].sg.wkc_errors != oerr:
+                viol("other-groups-state-changed", f"a frame of group {g.no} changed wkc_errors "
+                     f"of group {ono}")
         ran = bool(inst.tail_calls)
+        info = g.info
         stats["passes"] += 1
         changed = {i for i in range(len(before)) if before[i] != after[i]}
         enabled_after = [w for w in info["writers"] if after[w[0]] != NOP]
         if action == 3 and enabled_after and not ran:
             viol("enabled-frame-retransmitted-without-program",
-                 f"frame {no}: sent back onto the bus with write datagram(s) "
+                 f"group {g.no} frame {no}: sent back onto the bus with write datagram(s) "
                  f"{[w[0] for w in enabled_after]} enabled although the group's program did "
                  f"not run in this pass (stamp {before[17]} -> {after[17]})")
         if not ran:
             if not changed <= {12, 13, 17}:
                 viol("frame-changed-without-program",
-                     f"frame {no}: bytes {sorted(changed)} changed in a pass without the "
-                     f"group's program")
+                     f"group {g.no} frame {no}: bytes {sorted(changed)} changed in a pass "
+                     f"without the group's program")
             if errors_after != errors_before:
                 viol("wkc-errors-changed-without-program", f"{errors_before} -> {errors_after}")
             return
@@ -194,7 +225,7 @@ def run(tape, scenario):
         if errors_before == 0:
             if not changed <= {17}:
                 viol("outputs-enabled-while-disabled",
-                     f"frame {no}: wkc_errors was 0 (outputs disabled) but bytes "
+                     f"group {g.no} frame {no}: wkc_errors was 0 (outputs disabled) but bytes "
                      f"{sorted(changed)} changed")
             return
         stats["activated"] += 1
@@ -204,22 +235,22 @@ def run(tape, scenario):
             allowed |= {cmdpos, wkcpos, wkcpos + 1} | set(range(a, b))
             if after[cmdpos] != cmd:
                 viol("writer-not-re-enabled",
-                     f"frame {no}: write datagram at {cmdpos} has command {after[cmdpos]}, "
-                     f"should be {cmd}")
+                     f"group {g.no} frame {no}: write datagram at {cmdpos} has command "
+                     f"{after[cmdpos]}, should be {cmd}")
             if after[wkcpos:wkcpos + 2] != b"\0\0":
-                viol("writer-wkc-not-cleared", f"frame {no}: counter at {wkcpos} is "
-                     f"{after[wkcpos:wkcpos + 2].hex()}")
+                viol("writer-wkc-not-cleared", f"group {g.no} frame {no}: counter at {wkcpos} "
+                     f"is {after[wkcpos:wkcpos + 2].hex()}")
             got, = struct.unpack_from("<H", before, wkcpos)
             if got != exp:
                 wrong += 1
         if (errors_after - errors_before) & 0xffffffff != wrong:
             viol("wkc-error-count",
-                 f"frame {no}: wkc_errors {errors_before} -> {errors_after}, {wrong} write "
-                 f"datagram(s) had a counter different from the expected value")
+                 f"group {g.no} frame {no}: wkc_errors {errors_before} -> {errors_after}, "
+                 f"{wrong} write datagram(s) had a counter different from the expected value")
         if not changed <= allowed:
             viol("program-changed-foreign-bytes",
-                 f"frame {no}: bytes {sorted(changed - allowed)} changed outside the write "
-                 f"datagrams")
+                 f"group {g.no} frame {no}: bytes {sorted(changed - allowed)} changed outside "
+                 f"the write datagrams")
     bus.rx_monitors.append(rx_monitor)
 
     def wkc_fault(no, d, wkc):
@@ -233,45 +264,50 @@ def run(tape, scenario):
     bus.wkc_fault = wkc_fault
 
     cycling = [False]
-    sg = None
     outcome = []
 
     async def main(loop):
-        nonlocal sg
         await ec.connect()
-        sg = FastSyncGroup(ec, devices)
-        orig_update = sg.update_devices
+        tasks = []
+        for g in groups:
+            sg = g.sg = FastSyncGroup(ec, g.devices)
+            orig_update = sg.update_devices
 
-        def update_devices(data):
-            if not cycling[0]:
-                cycling[0] = True
-                if scenario == "wire-faults":
-                    wf.loss = [5, 15, 30][tape.draw("cfg/loss", 3)]
-            return orig_update(data)
-        sg.update_devices = update_devices
-        task = sg.start()
-        await asyncio.sleep(0)
-        if task.done():
-            e = task.exception()
-            outcome.append(f"{type(e).__name__}: {e}")
-            return
-        layout(sg)
+            def update_devices(data, orig_update=orig_update):
+                if not cycling[0]:
+                    cycling[0] = True
+                    if scenario in ("wire-faults", "two-groups"):
+                        wf.loss = [5, 15, 30][tape.draw("cfg/loss", 3)]
+                return orig_update(data)
+            sg.update_devices = update_devices
+            task = sg.start()
+            await asyncio.sleep(0)
+            if task.done():
+                e = task.exception()
+                outcome.append(f"{type(e).__name__}: {e}")
+                return
+            layout(g)
+            tasks.append(task)
+            if two:
+                await asyncio.sleep([0, 1e-3, 8e-3][tape.draw("c21/stagger", 3)])
         t_end = 0.04 + 0.02 * tape.draw("c21/runtime", 6)
         t = 0.0
-        while t < t_end and not task.done():
+        while t < t_end and not any(x.done() for x in tasks):
             dt = [0.002, 0.005, 0.011][tape.draw("c21/tick", 3)]
             await asyncio.sleep(dt)
             t += dt
-            for dev in devices:
-                for j, ln in enumerate(dev.outs):
-                    if tape.chance("c21/set", 40):
-                        setattr(dev, f"vo{j}", wl.draw_value(tape, ln, "c21")
-                                if not isinstance(ln["size"], int) else tape.draw("c21/bit", 2))
+            for g in groups:
+                for dev in g.devices:
+                    for j, ln in enumerate(dev.outs):
+                        if tape.chance("c21/set", 40):
+                            setattr(dev, f"vo{j}", wl.draw_value(tape, ln, "c21")
+                                    if not isinstance(ln["size"], int) else tape.draw("c21/bit", 2))
         wf.loss = 0
-        if task.done() and not task.cancelled():
-            e = task.exception()
-            outcome.append(f"{type(e).__name__}: {e}")
-        task.cancel()
+        for task in tasks:
+            if task.done() and not task.cancelled():
+                e = task.exception()
+                outcome.append(f"{type(e).__name__}: {e}")
+            task.cancel()
         await asyncio.sleep(0.02)
 
     with env:
@@ -295,7 +331,7 @@ def run(tape, scenario):
         "digest": world.digest.hexdigest(), "sim_time": world.now,
         "schedule": world.digest.hexdigest(),
         "nontrivial": stats["program_passes"] >= 10,
-        "sample": {"scenario": scenario, "terminals": specs, "links": links,
-                   "writers": [(w[0], w[2], w[3]) for w in info.get("writers", [])],
-                   **stats},
+        "sample": {"scenario": scenario, "terminals": specs, "groups": [
+            {"links": g.links, "writers": [(w[0], w[2], w[3]) for w in g.info.get("writers", [])]}
+            for g in groups], **stats},
     }
